@@ -17,7 +17,10 @@ CHECKS = {
     # C07 "JWT assertions are refused once their expiry instant has passed": the rows of TblAssertion whose exp / nbf is not the right one
     "C07A": dict(spec="TblAssertion", consts={Q: {"MaxDev": 2}, T: {"MaxDev": 3}}, tables=[("VERIF_TABLE_ASSERT", "c15", "assert")], cap={Q: 10**7, T: 10**7},
                  rowfilter=lambda r: r["f"].get("exp") != "future" or r["f"].get("nbf", "absent") != "absent"),
-    "C10": dict(spec="TblClientAuth", consts={Q: {}, T: {}}, tables=[("VERIF_TABLE_CLIENTAUTH", "c10", "clientauth")], cap={Q: 10**7, T: 10**7}),
+    "C10": dict(spec="TblClientAuth", consts={Q: {}, T: {}}, tables=[("VERIF_TABLE_CLIENTAUTH", "c10", "clientauth")], cap={Q: 10**7, T: 10**7}, also=["C10A"]),
+    # C10 "... or presents a valid private_key_jwt assertion; every other presentation is rejected": the client-assertion rows of TblAssertion
+    "C10A": dict(spec="TblAssertion", consts={Q: {"MaxDev": 2}, T: {"MaxDev": 3}}, tables=[("VERIF_TABLE_ASSERT", "c15", "assert")], cap={Q: 10**7, T: 10**7},
+                 rowfilter=lambda r: r["tbl"] == "CA"),
     "C06": dict(spec="TblHmac", consts={Q: {}, T: {}}, tables=[("VERIF_TABLE_HMAC", "c06hmac", "hmac"), ("VERIF_TABLE_JWT", "c06jwt", "jwt")],
                 cap={Q: 10**7, T: 10**7}, n={Q: 4, T: 40}),
     "C20": dict(spec="TblErrorWire", consts={Q: {}, T: {}}, tables=[("VERIF_TABLE_ERRWIRE", "c20wire", "errwire")], cap={Q: 10**7, T: 10**7}),
